@@ -198,6 +198,55 @@ fn write_publish(kvs: &KeyValueStore, state: &mut KvState, mut wait_guard: WaitG
 //@ >>
 //@ end
 
+
+// ---------------------------------------------------------------- KeyValueStore::write entire: the glue between the regions
+// The function is extracted whole; the text of its two critical sections is replaced by calls to the region functions proved
+// above from that very text (X16), log_and_apply is a stub with the contract unit lsmtk_mem proves of it, and the state
+// mutex is one object that is either held or not: what is checked here is that the pieces FIT --
+//   * the batch is stamped, logged and applied under the timestamp that is later published, not another one;
+//   * when the closing critical section publishes, this writer's own batch has been applied in full or has failed without
+//     touching the memtable (the precondition `applied(seq_no)` of write_publish is discharged, not assumed);
+//   * the result handed back is log_and_apply's.
+impl WriteBatch {
+    #[verifier::external_body]
+    fn retain_last_write_per_key(&mut self) { unimplemented!() }
+}
+struct Kvs2 { inner: KeyValueStore }
+impl Kvs2 {
+    // KeyValueStore::log_and_apply (unit lsmtk_mem): on Ok the whole batch is in the memtable, on Err the memtable is untouched --
+    // either way nothing of this batch is left half-applied once it returns
+    #[verifier::external_body]
+    fn log_and_apply(&self, batch: &mut WriteBatch, memtable: &MemArc, log: &LogArc, Ghost(ts): Ghost<u64>) -> (r: Result<(), SError>)
+        requires forall|i: int| 0 <= i < old(batch).entries@.len() ==> (#[trigger] old(batch).entries@[i]).timestamp == ts,
+        ensures final(batch).entries@ == old(batch).entries@, applied(ts),
+    { unimplemented!() }
+    // `self.state.lock().unwrap()` / the guard going out of scope: between two critical sections the other threads may leave any
+    // state that satisfies the invariant and never turn the counter back
+    #[verifier::external_body]
+    fn between_sections(&self, state: &mut KvState)
+        requires old(state).inv(),
+        ensures final(state).inv(), final(state).seq_no >= old(state).seq_no,
+    { unimplemented!() }
+
+//@ extract lsmtk/src/kvs/mod.rs | impl KeyValueStore :: fn write
+//@ ret r
+//@ prefix #[verifier::exec_allows_no_decreases_clause]
+//@ rewrite X23 `fn write(&self, mut batch: WriteBatch) -> Result<(), SError>` => `fn write(&self, state: &mut KvState, mut batch: WriteBatch) -> Result<(), SError>`
+//@ rewrite-re X16 `(?s)let \(mut wait_guard, memtable, log, seq_no\) = \{.*?\n        \};` => `let (mut wait_guard, memtable, log, seq_no) = write_sequence(&self.inner, state, &mut batch);\n        self.between_sections(state);`
+//@ rewrite-re X16 `(?s)let mut state = self\.state\.lock\(\)\.unwrap\(\);\s*while !wait_guard\.is_head\(\).*\n        result\n` => `write_publish(&self.inner, state, wait_guard, seq_no, result)\n`
+//@ rewrite-re? X18 `(?m)^\s*drop\((memtable|log)\);\n` => ``
+//@ rewrite-re X24 `self\.log_and_apply\((.+?)\)` => `self.log_and_apply(\1, Ghost(seq_no))`
+//@ pre <<
+        old(state).inv(), old(state).seq_no < 0xffff_ffff_ffff_ffff,
+//@ >>
+//@ post <<
+        final(state).inv(),
+        // whatever became of the batch, the timestamp it was given has been published: a read that starts now sees it whole
+        final(state).visible_seq_no > old(state).visible_seq_no || final(state).visible_seq_no >= old(state).seq_no + 1,
+//@ >>
+//@ end
+}
+
 // ---- what a read snapshots at
 //@ extract lsmtk/src/kvs/mod.rs | impl KeyValueStore :: fn load
 //@ region `let (mem, imm, version, timestamp) = {`
@@ -324,6 +373,6 @@ fn memtable_rollover(kvs: &FlushStore, state: &mut RollState) -> (r: Result<(Mem
 //@ >>
 //@ end
 
-//@ min-verified 5
+//@ min-verified 6
 } // verus!
 fn main() {}
